@@ -130,6 +130,9 @@ var collapseCorpus = []string{
 
 const collapseSeeds = 6
 
+// upper bound on the words of one shrink transcript (about 4 MB of text per case line)
+const maxTranscriptWords = 200000
+
 func corrEngine(r *rng, c *caseOut, n int, tmp string) {
 	for i := 0; i < n+len(collapseCorpus)*collapseSeeds; i++ {
 		var prog *SX
@@ -176,6 +179,16 @@ func corrEngine(r *rng, c *caseOut, n int, tmp string) {
 				} else {
 					nrng++
 				}
+			}
+			// a shrink that ran hundreds of thousands of candidates makes a transcript of gigabytes:
+			// such a case is not compared (it is counted, so that the evidence shows how many were dropped)
+			total := 0
+			for _, b := range bufs {
+				total += len(b) + 1
+			}
+			if total > maxTranscriptWords {
+				c.tag("checktb-transcript-too-long-skipped")
+				return
 			}
 			verdict := tbVerdict(tb)
 			failed := len(tb.errors) > 0 && !strings.HasPrefix(verdict, "only")
